@@ -58,8 +58,10 @@ LETTERS = [a + b for a in "abcdefghjkmnpqrstuvwyz" for b in ("", "1")]
 # query generator (typed by construction)
 # ---------------------------------------------------------------------------------------------
 class Gen:
-    def __init__(self, rng, names, reuse=0.0):
+    def __init__(self, rng, names, reuse=0.0, helpers=None):
         self.rng = rng
+        self.helpers = helpers if helpers is not None else []
+        self.helper_reuses = 0
         self.names = list(names)
         rng.shuffle(self.names)
         self.reuse = reuse
@@ -201,9 +203,27 @@ class Gen:
             s = self.expr(("seq", T), env, d - 1)
             return None if s is None else (f"First({s})" if r.random() < 0.6 else f"{s}.First()")
         if o == "called":
+            # a helper lambda; the same helper text may be called again elsewhere (in this query
+            # or a later one of the run) with another argument - what an inlined Python helper
+            # function looks like inside a query
+            key = json.dumps(T)
+            known = [h for h in self.helpers if h[0] == key]
+            if known and r.random() < 0.5:
+                _, aT, l = r.choice(known)
+                a = E(aT)
+                if a is not None:
+                    self.helper_reuses += 1
+                    return f"{l}({a})"
             aT = self.anyT(True)
-            a, l = E(aT), self.lam(aT, T, env, d - 1)
-            return None if None in (a, l) else f"{l}({a})"
+            a = E(aT)
+            # helpers are generated closed (their only free name is their parameter)
+            l = self.lam(aT, T, {"ds": env["ds"]} if r.random() < 0.6 else env, d - 1)
+            if None in (a, l):
+                return None
+            used = set(re.findall(r"[A-Za-z_][A-Za-z_0-9]*", l))
+            if not (used & (set(env) - {"ds"})) and "Select" in l:
+                self.helpers.append((key, aT, l))
+            return f"{l}({a})"
         if o == "build":
             if T[0] == "tup":
                 es = [E(t) for t in T[1]]
@@ -242,9 +262,9 @@ class Gen:
         return None
 
 
-def gen_query(rng, names, reuse=0.0):
+def gen_query(rng, names, reuse=0.0, helpers=None):
     for _ in range(50):
-        g = Gen(rng, names, reuse)
+        g = Gen(rng, names, reuse, helpers)
         T = ("seq", g.anyT())
         q = g.expr(T, {"ds": ("seq", ("rec", "evt"))}, rng.randint(2, 5))
         if q and q != "ds" and ("Select" in q or "Where" in q):
@@ -285,17 +305,18 @@ def generate(prop, seed, tier="quick", fault_free=False):
     argn = [f"arg_{i}" for i in range(0, max_c + 6)]
     names = {"letters": LETTERS, "argn": argn + LETTERS[:6], "mixed": argn + LETTERS}[naming]
     n_ops = 3 + int(w.expovariate(1 / 7.0))
+    helpers = []  # helper lambdas shared by the queries of this run
     ops = []
     n_served = 0
     for _ in range(min(n_ops, 25)):
         r = w.random()
         if fault_free:
             # no restarts, no warm-ups, no round trips: one history, ordinary generation
-            ops.append({"op": "serve", "q": gen_query(w, names, reuse)})
+            ops.append({"op": "serve", "q": gen_query(w, names, reuse, helpers)})
             n_served += 1
             continue
         if r < 0.42 or n_served == 0:
-            ops.append({"op": "serve", "q": gen_query(w, names, reuse)})
+            ops.append({"op": "serve", "q": gen_query(w, names, reuse, helpers)})
             n_served += 1
         elif r < 0.55:
             ops.append({"op": "reserve", "ref": w.randrange(64)})
